@@ -12,9 +12,9 @@ def run(tier, seed):
     ck.proof = lib.proof_step('props/C12.v', matchcheck.MATCH_CONE + ['NsFacts.v'])
     ck.broken += ck.proof['broken']
     if not ck.proof['driver_ok']:
-        return ck.finish(rule='driver unavailable')
+        ck.notes['driver'] = 'unavailable: model-side runs skipped, searching with the implementation-side oracles only'
     n = 200 if tier == 'quick' else 4000
-    scs = campaign.build(ck.rnd, 'ns', n, 8, depth=1, all_match=True)
+    scs = campaign.build(ck.rnd, 'ns', n, 8, depth=1, all_match=True, directed=3)
     scs += campaign.build(ck.rnd, 'ns', n // 4, 4, depth=2, all_match=True)
     # HTML-only pseudo-classes next to namespaced selectors: in XML that is not XHTML they match nothing, so
     # `<state>, S` designates what S does and `S:not(<state>)` too (oracle: reference semantics of S alone)
